@@ -1078,6 +1078,34 @@ func c18Check(tb ev.TB, rec *ev.Rec, cs *c18case) {
 	if got != (want == vTrue) {
 		key := c18Key(cs, d, want)
 		rec.Fail(tb, key, cs, "%s on %s: bfe=%v, documented=%v (label %s)", cs.Cond, string(specJSON), got, want == vTrue, cs.Label)
+		return
+	}
+	// the truth value of the primitive is what the operators work on: NOT applied
+	// directly (and through parentheses) must give the opposite value on the same
+	// request, whatever made the primitive true or false
+	for _, neg := range []string{"!" + cs.Cond, "!(" + cs.Cond + ")"} {
+		var ncond condition.Condition
+		var nerr error
+		var ngot bool
+		req.Query, req.CookieMap = nil, nil
+		if p := ev.Try(func() {
+			ncond, nerr = condition.Build(neg)
+			if nerr == nil {
+				ngot = ncond.Match(req)
+			}
+		}); p != nil || nerr != nil {
+			rec.Fail(tb, "negated-primitive-unusable", cs, "Build/Match of %s: err=%v panic=%v", neg, nerr, p)
+			return
+		}
+		rec.Class("negated")
+		if ngot == got {
+			k := "negated-primitive-not-inverted"
+			if strings.HasPrefix(cs.Label, "absent") || cs.Label == "no-response" {
+				k = "negated-missing-attribute-not-inverted"
+			}
+			rec.Fail(tb, k, cs, "%s = %v but %s = %v on %s (label %s)", cs.Cond, got, neg, ngot, string(specJSON), cs.Label)
+			return
+		}
 	}
 }
 
